@@ -3,35 +3,39 @@ for completion never fails.
 
 Part A (path round trip)
 Generator : a file name (any characters legal in a POSIX name except `/` and NUL: blanks, both quotes, `$`,
-            backslashes incl. trailing, newline, tab, \\r, glob and shell metacharacters, `!`, leading
-            `~` `-` `#` `.`, keywords, redirect look-alikes, non-ASCII), file or directory, optionally inside an
-            awkwardly named sub-directory and/or typed with a leading `./` or as the value of `--o=`;
+            backslashes incl. trailing, newline, tab, \\r, other control characters, glob and shell
+            metacharacters, `!`, leading `~` `-` `#` `.` `=`, keywords, redirect look-alikes, non-ASCII), file or
+            directory, optionally inside an awkwardly named sub-directory and/or typed with a leading `./`;
             a typed prefix (first k characters, 0 <= k <= len) written in an opening-quote style (none, ' " r' r"
-            ''' \"\"\" p' p" pr'), with or without the closing quote already standing after the cursor; decoy
-            siblings (benign names and near-variants of the name: one char more / less, other case, a blank
-            more / less, doubled backslashes).  A fixed family of ~70 hand-picked awkward names x every style
-            is always run.  The typed text is self-checked with ast.literal_eval (it must denote the typed chars).
+            \'\'\' \"\"\" p' p" pr'); the closing quote absent, standing after the cursor, or standing before the cursor
+            (appending to a closed string); decoy siblings (benign names and near-variants of the name: one
+            character more / less, other case, a blank more / less, doubled backslashes ...).  A fixed family of
+            ~110 hand-picked awkward names x every style x 6 (quick) / 18 (thorough) typing situations is always
+            run.  The typed text is self-checked with ast.literal_eval (it must denote the typed characters).
 Oracle    : the entries are created in a scratch cwd; completions are obtained through the real pipeline
             (Completer.complete_line for a cursor at the end, Completer.complete(..., multiline_text, cursor_index)
-            otherwise), the candidates that come from the path completer are identified by calling
+            otherwise); the candidates that come from the path completer are identified by calling
             complete_path on the same context; every such candidate is spliced into the line the way the
             completer reports (prefix_len / lprefix, as the prompt-toolkit front end does) and the completed
-            line is EXECUTED through the real Execer with a recording alias.  Required: the line runs, `rec` is
-            called exactly once with exactly one argument; that argument names an existing entry; two candidates
-            never name the same entry; and, when the path completer offers anything, one candidate's argument is
-            the generated file's path as typed (a trailing `/` is accepted for directories; pathlib's spelling for
-            p-strings).
+            line is EXECUTED through the real Execer with a recording alias.  Required: the line runs; `rec` is
+            called exactly once with exactly one argument; that argument names an existing entry (the candidate
+            came from a directory listing); and the text meant for the generated entry does not collapse onto a
+            sibling's text (when no candidate delivers the generated entry the case is repeated without the
+            siblings: a failure there, or a delivery there, is a violation).  Completeness of the candidate
+            list is not demanded.
 Part B (analyser)
 Generator : arbitrary strings (Hypothesis text and concatenations of shell/xonsh fragments: quotes, string
             prefixes, `$(` `![` `@(` ..., operators, redirects, backslash-newline, comments, keywords,
             non-ASCII) x EVERY cursor position 0..len; thorough tier adds an atheris coverage-guided campaign
             (sub-processes) on CompletionContextParser.parse.
-Oracle    : no exception of any type escapes; the result is None or a CompletionContext; for a CommandContext
-            text[:cursor] with backslash-newline continuations removed ends with opening_quote+prefix
-            (+closing_quote when is_after_closing_quote) and text[cursor:] (same treatment) starts with suffix;
-            0 <= arg_index <= len(args); for a PythonContext multiline_code[:cursor_index] is a suffix of
-            text[:cursor].  One parser object is reused like the shell does; a failure is re-confirmed on a
-            fresh parser.
+Oracle    : parse returns within 3 CPU-seconds (typical 0.5 ms; re-confirmed with 6); no exception of any type
+            escapes; the result is None or a CompletionContext with a command and/or python part; for a
+            CommandContext text[:cursor] ends with opening_quote+prefix (+closing_quote when
+            is_after_closing_quote) and text[cursor:] starts with suffix - on the text as it stands or with
+            backslash-newline continuations removed on either side; the quote fields have their documented shape
+            (opening_quote = prefix letters + quote, closing_quote empty or that quote); 0 <= arg_index <= len(args);
+            for a PythonContext multiline_code[:cursor_index] is a suffix of text[:cursor].  One parser object is
+            reused like the shell does; a failure is re-confirmed on a second parser instance.
 """
 
 from __future__ import annotations
@@ -51,8 +55,8 @@ from vlib.common import Failure, Stats
 
 PROP = "C18"
 LEVEL = "exploration"
-RULE = ("A: (file name, file|dir, sub-directory, typed prefix length, opening-quote style, closing quote present, decoys) -> "
-        "complete through Completer, splice, execute, compare argv with the path; non-trivial = the name or sub-directory has a "
+RULE = ("A: (file name, file|dir, sub-directory, ./, typed prefix length, opening-quote style, closing quote absent|after|before the "
+        "cursor, decoys) -> complete through Completer, splice every path candidate, execute, compare argv with the entries; non-trivial = the name or sub-directory has a "
         "character outside [A-Za-z0-9_.-] or the user opened a quote; distinct = hash of the whole case.  "
         "B: text x every cursor position through CompletionContextParser.parse; non-trivial = the text contains a quote, "
         "bracket, operator, `$`, `@`, `!`, `#` or backslash; distinct = hash of the text (every cursor position of a text is "
@@ -191,7 +195,7 @@ def shape_of(name, isdir, relpath, style="none"):
     if (user_raw or (("\\" in relpath or "$" in relpath) and not _has_ctrl_completer(relpath))) \
             and _quote_in_use(style, relpath) in relpath:
         out.add("C18-F3")
-    if user_raw and _has_ctrl_completer(relpath):
+    if user_raw and (_has_ctrl_completer(relpath) or any(c in relpath for c in LINEBREAKS)):
         out.add("C18-F12")
     if style in ("tsq", "tdq") and not isdir and relpath.endswith(STYLES[style][1][0]):
         out.add("C18-F13")
@@ -442,7 +446,7 @@ def _classify_a(case, info, cand, got, kind):
     if "C18-F6" in shapes and case["style"] != "none" and not case.get("closed") and cand and cand[1] < info["cursor"] - 4 \
             and kind in ("line-error", "argv-shape", "names-nothing"):
         return "C18-F6"
-    if "C18-F12" in shapes and cand_raw and kind in ("names-nothing", "target-lost", "ambiguous") and re.search(r"\\[ntrfv]", text):
+    if "C18-F12" in shapes and cand_raw and kind in ("names-nothing", "target-lost", "ambiguous") and re.search(r"\\[ntrfvxu]", text):
         return "C18-F12"
     if "C18-F13" in shapes and kind in ("line-error", "argv-shape", "names-nothing") and cand_q and \
             re.search(re.escape(cand_q) + "{4,} ?$", text):
@@ -782,11 +786,12 @@ def fixed_cases(open_ids, stats=None, full=False):
 
 
 def worker_a_fixed(arg):
-    shard, nshards, scratch, full = arg
+    shard, nshards, scratch, full, scale = arg
     st_ = _setup(scratch)
     st = Stats()
+    thin = max(1, int(round(1 / scale))) if scale < 1 else 1
     for i, case in enumerate(fixed_cases(st_["open"], st if shard == 0 else None, full)):
-        if i % nshards != shard:
+        if i % nshards != shard or (i // nshards) % thin:
             continue
         f, nt, labels = check_case_a(case)
         if labels == ["A:outside-domain"]:
@@ -1272,7 +1277,7 @@ def one(data):
         if b is None or len(b["case"]["text"]) > len(text):
             found[f.bucket] = f.to_json()
             dump()
-    if stats["runs"] %% 2000 == 0:
+    if stats["runs"] %% 250 == 0:
         dump()
 import atexit
 atexit.register(dump)
@@ -1369,11 +1374,12 @@ def main(run):
     os.chdir(common.VERIF)
     quick = run.tier != "thorough"
     naf, na, nb = (4, 6, 6) if quick else (2, 7, 7)
-    per_a = run.n(1000, 14000)           # cases per worker (~25 ms each)
-    per_b = run.n(30000, 600000)         # (text, cursor) pairs per worker (~0.7 ms each)
+    scale = float(os.environ.get("C18_SCALE", "1"))          # development aid: shrink a tier proportionally
+    per_a = max(20, int(run.n(1000, 14000) * scale))         # cases per worker (~25 ms each)
+    per_b = max(500, int(run.n(30000, 600000) * scale))      # (text, cursor) pairs per worker (~0.7 ms each)
     args = []
     for w in range(naf):
-        args.append(("AF", w, naf, os.path.join(run.scratch, "af%d" % w), not quick))
+        args.append(("AF", w, naf, os.path.join(run.scratch, "af%d" % w), not quick, scale))
     for w in range(na):
         args.append(("A", common.worker_seed(run.seed, w), per_a, os.path.join(run.scratch, "a%d" % w)))
     for w in range(nb):
@@ -1384,6 +1390,8 @@ def main(run):
     if total_a and offered < 0.5 * total_a:
         raise common.HarnessError("generator incomplete: the path completer offered candidates in only %d of %d Part A cases"
                                   % (offered, total_a))
+    if scale != 1:
+        run.stats.notes.append("C18_SCALE=%s: this run is a scaled-down %s tier" % (scale, run.tier))
     if run.tier == "thorough":
         fails, runs, note = run_atheris(run, min(8, int(os.environ.get("VERIF_PROCS", "16"))), int(os.environ.get("C18_ATHERIS_SECONDS", "540")))
         run.stats.notes.append(note)
